@@ -16,6 +16,7 @@ package network
 //@   opt callbacks=effectful
 //@   opt effects=trace
 //@   ghost stop Int
+//@   decreases len(simpleHTTPSelf.interceptors) - index
 //@   requires simpleHTTPSelf != nil && !untyped(simpleHTTPSelf.clientTransport) && 0 <= index && index <= len(simpleHTTPSelf.interceptors) && IC_LIST(simpleHTTPSelf)
 //@   ghostset stop = ite(index >= len(simpleHTTPSelf.interceptors), len(simpleHTTPSelf.interceptors), ite(tr_err[old(tr_len)] != nil, index, stop))
 //@   ensures range: index <= stop && stop <= len(simpleHTTPSelf.interceptors)
